@@ -301,4 +301,21 @@ CHECKS = {
              "file template's own directory is first for load:.",
         note="Operation histories longer than one reload are covered only "
              "through the stale-state rule; file-system semantics trusted."),
+    "C19": dict(
+        technique="package-wide def-use census of the 'strict' flag "
+                  "(plumbing vs decision), emission shape of the deferred "
+                  "error, bypass census of the expression transformer",
+        text="Decides that the flag is consulted in exactly one place, the "
+             "'except ExpressionError' handler of ExpressionTransform."
+             "__call__, everything else being plumbing (and the cache key): "
+             "therefore a template whose expressions are all valid is "
+             "compiled by the same code path and emits the same program in "
+             "both modes, for all inputs; that the non-strict branch "
+             "replaces the expression's statements by unpickle / token "
+             "reference to the error's own token / raise of that error, at "
+             "the expression's site; that no emitter bypasses the "
+             "transformer.",
+        note="Known finding: the deferral unit is the whole expression, so a "
+             "later invalid pipe alternative is raised although not "
+             "reached."),
 }
